@@ -185,6 +185,10 @@ func (h *Handler) handleQuery(r *http.Request, w http.ResponseWriter, query *add
 	}
 	if query.Limit != nil {
 		q.Limit = int(query.Limit.NResults)
+		if q.Limit < 0 {
+			// more than an int can hold is no less than a backend can return
+			q.Limit = int(^uint(0) >> 1)
+		}
 		if q.Limit <= 0 {
 			return internal.ServeMultiStatus(w, internal.NewMultiStatus())
 		}
